@@ -60,7 +60,10 @@ const DELAYS: [u64; 5] = [0, 1, 5, 20, 100];
 #[derive(Clone, Debug)]
 enum Searching {
     Depth,
+    /// clock-derived budget (upper bound only)
     Timed(u64),
+    /// explicit `go movetime T`: the answer must come after the budget, not before it
+    MoveTime(u64),
     Infinite,
 }
 
@@ -90,6 +93,7 @@ impl C14 {
         let mut during = 0u32;
         let mut accepted_go = 0u32;
         let mut bestmoves = 0u32;
+        let mut go_sent_at: Option<Instant> = None;
 
         macro_rules! fail {
             ($sig:expr, $($arg:tt)*) => {{
@@ -170,12 +174,18 @@ impl C14 {
                                 fail!("go-without-game", "go without a game: expected an error line");
                             }
                         } else {
-                            let kind = it.a % 5;
+                            let kind = it.a % 6;
                             let (cmd, sr) = match kind {
                                 0 | 1 => (format!("go depth {}", 1 + it.b % 4), Searching::Depth),
                                 2 => {
-                                    let mt = [0u64, 1, 3, 5, 8, 20, 60, 150][it.b as usize % 8];
-                                    (format!("go movetime {}", mt), Searching::Timed(mt))
+                                    let mt = [0u64, 1, 3, 5, 8, 20, 60, 150, 400][it.b as usize % 9];
+                                    (format!("go movetime {}", mt), Searching::MoveTime(mt))
+                                }
+                                5 => {
+                                    // ends at the depth limit long before the time budget: its timer thread stays
+                                    // asleep and wakes up during whatever is searched next
+                                    let mt = [300u64, 800, 1500][it.b as usize % 3];
+                                    (format!("go depth {} movetime {}", 1 + it.b % 3, mt), Searching::Depth)
                                 }
                                 3 => {
                                     let t = [0u64, 50, 1000, 7000, 9000, 12000][it.b as usize % 6];
@@ -186,6 +196,7 @@ impl C14 {
                                 _ => ("go infinite".to_string(), Searching::Infinite),
                             };
                             s.send(&cmd);
+                            go_sent_at = Some(Instant::now());
                             searching = Some(sr);
                             n_search += 1;
                             accepted_go += 1;
@@ -218,6 +229,9 @@ impl C14 {
                                 }
                                 ev.class("isready_bursts_at_search_start");
                                 if bestmoves > before {
+                                    if matches!(searching, Some(Searching::Infinite)) {
+                                        fail!("bestmove-without-stop", "an infinite search announced a move although no stop was sent");
+                                    }
                                     searching = None;
                                     game = false;
                                 }
@@ -248,6 +262,9 @@ impl C14 {
                             fail!("isready-unanswered", "isready unanswered while searching ({:?})", sr);
                         }
                         if bestmoves > before {
+                            if infinite {
+                                fail!("bestmove-without-stop", "an infinite search announced a move although no stop was sent (the positions used have no forced mate, single reply or reachable depth ceiling)");
+                            }
                             // the search ended by itself meanwhile
                             searching = None;
                             game = false;
@@ -262,8 +279,11 @@ impl C14 {
                             None => fail!("command-during-search-unanswered", "{} during an infinite search: neither refused nor did the search end", cmd),
                             Some(_) => {
                                 if bestmoves > before {
-                                    // an infinite search may end by itself (mate seen, depth ceiling): the
-                                    // command raced with it; resynchronise
+                                    fail!("bestmove-without-stop", "an infinite search announced a move although no stop was sent (while {:?} was being refused)", cmd);
+                                }
+                                #[allow(unreachable_code)]
+                                if bestmoves > before {
+                                    // (kept for positions where an infinite search may end by itself: resynchronise)
                                     searching = None;
                                     game = false;
                                     s.send("isready");
@@ -295,7 +315,7 @@ impl C14 {
                             s.send(cmd);
                         }
                         let budget = match sr {
-                            Searching::Timed(b) => b,
+                            Searching::Timed(b) | Searching::MoveTime(b) => b,
                             Searching::Depth => 4_000,
                             Searching::Infinite => 0,
                         };
@@ -303,6 +323,14 @@ impl C14 {
                         let before = bestmoves;
                         let t0 = Instant::now();
                         let r = expect!(|l| l.starts_with("bestmove"), tmo);
+                        if let (Searching::MoveTime(mt), "", Some(started)) = (&sr, cmd, go_sent_at) {
+                            // nobody stopped it and the positions used here have no forced mate or single reply:
+                            // the answer may not come (much) before the move time is over
+                            let waited = started.elapsed().as_millis() as u64;
+                            if r.is_some() && *mt >= 60 && waited + 40 < *mt {
+                                fail!("bestmove-before-the-time-budget", "`go movetime {}` answered after {} ms without a stop", mt, waited);
+                            }
+                        }
                         match r {
                             None => fail!("no-bestmove", "no bestmove {} ms after {:?} of a {:?} search", t0.elapsed().as_millis(), cmd, sr),
                             Some(ls) => {
@@ -338,7 +366,7 @@ impl C14 {
         // end of script: finish a running search, then no stray bestmove may follow
         if let Some(sr) = searching.clone() {
             s.send("stop");
-            let budget = if let Searching::Timed(b) = sr { b } else { 0 };
+            let budget = if let Searching::Timed(b) | Searching::MoveTime(b) = sr { b } else { 0 };
             let before = bestmoves;
             if expect!(|l| l.starts_with("bestmove"), grace + budget).is_none() || bestmoves != before + 1 {
                 fail!("no-bestmove", "no bestmove after the final stop of a {:?} search", sr);
@@ -386,7 +414,7 @@ impl Prop for C14 {
     }
 
     fn rule(&self) -> String {
-        "Cases (model-based): 3-16 GUI intents over {isready, uci, show, position, go depth|movetime|clock|infinite, ucinewgame, stop, wait} interpreted by a GUI state machine (no game / game set / searching) so that every expectation is unambiguous, each preceded by a generated delay of 0/1/5/20/100 ms, together with a generated delay 0/20/100 ms for each of nine schedule points in command_go and the search-thread epilogue (before_flag_raise, after_flag_raise, timer_wakeup, before_search_spawn, search_thread_start, after_search_return, after_flag_clear, after_game_drop, after_bestmove_print). Run against the real binary built with the hooks. History invariants: exactly one bestmove per accepted go (never `none` here), each within its deadline (depth: grace; timed: budget + hook delays + grace; infinite: after stop), isready answered while idle and while searching, show/position/go refused while an infinite search runs, a position + go sent right after a bestmove line was read are honoured, no stray bestmove at the end, no panic on stderr, exit status 0 after quit. evaluations = commands issued. Non-trivial session: at least two searches and (a stretched schedule point or a command sent while searching); distinct by command script and delays.".into()
+        "Cases (model-based): 3-16 GUI intents over {isready, uci, show, position, go depth|movetime|depth+movetime|clock|infinite, ucinewgame, stop, wait} interpreted by a GUI state machine (no game / game set / searching) so that every expectation is unambiguous, each preceded by a generated delay of 0/1/5/20/100 ms, together with a generated delay 0/20/100 ms for each of nine schedule points in command_go and the search-thread epilogue (before_flag_raise, after_flag_raise, timer_wakeup, before_search_spawn, search_thread_start, after_search_return, after_flag_clear, after_game_drop, after_bestmove_print). Run against the real binary built with the hooks. History invariants: exactly one bestmove per accepted go (never `none` here), each within its deadline (depth: grace; timed: budget + hook delays + grace; infinite: only after stop - the curated positions have no forced mate or single reply, so an infinite search that announces a move by itself, or a `go movetime T` answered well before T, is a violation: that is how a stale timer of an earlier `go depth d movetime T` shows), isready answered while idle and while searching, show/position/go refused while an infinite search runs, a position + go sent right after a bestmove line was read are honoured, no stray bestmove at the end, no panic on stderr, exit status 0 after quit. evaluations = commands issued. Non-trivial session: at least two searches and (a stretched schedule point or a command sent while searching); distinct by command script and delays.".into()
     }
 
     fn assumptions(&self) -> Vec<String> {
